@@ -41,12 +41,18 @@ def _lastseg(t):
 
 class Models:
     def lookup(self, plain):
-        f = _EXACT.get(plain)
-        if f is not None:
-            return f
-        for rx, fn in _REGEX:
-            if rx.match(plain):
-                return fn
+        cands = [plain]
+        for a in ("std::", "core::", "alloc::"):
+            if plain.startswith(a):
+                cands += [b + plain[len(a):] for b in ("std::", "core::", "alloc::") if b != a]
+        for c in cands:
+            f = _EXACT.get(c)
+            if f is not None:
+                return f
+        for c in cands:
+            for rx, fn in _REGEX:
+                if rx.match(c):
+                    return fn
         return None
 
     def lookup_trait(self, ty, trait, method):
@@ -59,6 +65,11 @@ class Models:
     def const(self, it, c):
         if c in ("std::time::Duration::ZERO", "core::time::Duration::ZERO"):
             return mk_duration(0, 0)
+        if c in ("std::time::Duration::MAX", "core::time::Duration::MAX"):
+            return dur_ns(DMAX)
+        m = re.match(r"^<(u\d+|usize) as bitflags::Bits>::(EMPTY|ALL)$", c)
+        if m:
+            return 0 if m.group(2) == "EMPTY" else (1 << int_width(m.group(1))) - 1
         return None
 
     def extern_enum(self, ety):
@@ -115,8 +126,24 @@ def new_seq_ref(kind, items, elem_ty="u8"):
     return Ref(Cell(Seq(kind, list(items), elem_ty), kind), ())
 
 
-def mk_duration(secs, nanos):
-    return Agg("std::time::Duration", [secs, nanos])
+NS = 1_000_000_000
+DMAX = ((1 << 64) - 1) * NS + 999_999_999          # Duration::MAX in nanoseconds
+IMAX = ((1 << 63) - 1) * NS + 999_999_999          # largest Instant (i64 seconds)
+
+
+def mk_duration(secs, nanos=0):
+    """Duration/Instant are modelled as one 128-bit nanosecond count (int or BV128)"""
+    if isinstance(secs, int) and isinstance(nanos, int):
+        return Agg("std::time::Duration", [secs * NS + nanos])
+    return Agg("std::time::Duration", [simp(z3.ZeroExt(64, bv(secs, 64)) * NS + z3.ZeroExt(96, bv(nanos, 32)))])
+
+
+def dur_ns(ns):
+    return Agg("std::time::Duration", [ns])
+
+
+def instant_ns(ns):
+    return Agg("std::time::Instant", [ns])
 
 
 def bytes_eq(it, xs, ys):
@@ -1427,10 +1454,10 @@ def _ord_minmax(it, args, dty, func):
 
 
 def duration_lt(a, b):
-    sa, na, sb, nb = a.f[0], a.f[1], b.f[0], b.f[1]
-    if all(isinstance(x, int) for x in (sa, na, sb, nb)):
-        return (sa, na) < (sb, nb)
-    return simp(z3.Or(z3.ULT(bv(sa, 64), bv(sb, 64)), z3.And(bv(sa, 64) == bv(sb, 64), z3.ULT(bv(na, 32), bv(nb, 32)))))
+    x, y = a.f[0], b.f[0]
+    if isinstance(x, int) and isinstance(y, int):
+        return x < y
+    return simp(z3.ULT(bv(x, 128), bv(y, 128)))
 
 
 # --- formatting / logging: opaque ----------------------------------------------------------------
@@ -1513,3 +1540,370 @@ def _from_utf8(it, args, dty, func):
 @model("std::hint::must_use", "core::hint::must_use", "std::convert::identity", "std::hint::black_box")
 def _identity(it, args, dty, func):
     return args[0]
+
+
+# --- time: Instant / Duration as 128-bit nanosecond counts ----------------------------------------
+@model("std::time::Instant::now")
+def _instant_now(it, args, dty, func):
+    if it.clock is not None:
+        return instant_ns(it.clock(it))
+    last = getattr(it, "_clock_last", 0)
+    t = it.ctx.fresh_bv("now", 128)
+    it.ctx.add(z3.UGE(t, bv(last, 128)))
+    it.ctx.add(z3.ULE(t, z3.BitVecVal(1 << 62, 128)))
+    it._clock_last = t
+    return instant_ns(t)
+
+
+@model("std::time::Duration::from_secs")
+def _d_from_secs(it, args, dty, func):
+    return mk_duration(args[0], 0)
+
+
+@model("std::time::Duration::from_millis")
+def _d_from_millis(it, args, dty, func):
+    v = args[0]
+    if isinstance(v, int):
+        return dur_ns(v * 1_000_000)
+    return dur_ns(simp(z3.ZeroExt(64, bv(v, 64)) * 1_000_000))
+
+
+@model("std::time::Duration::from_micros")
+def _d_from_micros(it, args, dty, func):
+    v = args[0]
+    if isinstance(v, int):
+        return dur_ns(v * 1000)
+    return dur_ns(simp(z3.ZeroExt(64, bv(v, 64)) * 1000))
+
+
+@model("std::time::Duration::from_nanos")
+def _d_from_nanos(it, args, dty, func):
+    v = args[0]
+    return dur_ns(v if isinstance(v, int) else z3.ZeroExt(64, bv(v, 64)))
+
+
+@model("std::time::Duration::as_millis")
+def _d_as_millis(it, args, dty, func):
+    ns = _deref(args[0]).f[0]
+    if isinstance(ns, int):
+        return ns // 1_000_000
+    return simp(z3.UDiv(bv(ns, 128), z3.BitVecVal(1_000_000, 128)))
+
+
+@model("std::time::Duration::as_secs")
+def _d_as_secs(it, args, dty, func):
+    ns = _deref(args[0]).f[0]
+    if isinstance(ns, int):
+        return ns // NS
+    return simp(z3.Extract(63, 0, z3.UDiv(bv(ns, 128), z3.BitVecVal(NS, 128))))
+
+
+@model("std::time::Duration::is_zero")
+def _d_is_zero(it, args, dty, func):
+    ns = _deref(args[0]).f[0]
+    return ns == 0 if isinstance(ns, int) else simp(bv(ns, 128) == 0)
+
+
+@model("std::time::Instant::duration_since", "std::time::Instant::saturating_duration_since")
+def _i_duration_since(it, args, dty, func):
+    a, b = _deref(args[0]).f[0], _deref(args[1]).f[0]
+    if isinstance(a, int) and isinstance(b, int):
+        return dur_ns(max(a - b, 0))
+    A, B = bv(a, 128), bv(b, 128)
+    return dur_ns(simp(z3.If(z3.UGE(A, B), A - B, z3.BitVecVal(0, 128))))
+
+
+@model("std::time::Instant::elapsed")
+def _i_elapsed(it, args, dty, func):
+    now = _instant_now(it, [], "", "")
+    return _i_duration_since(it, [now, args[0]], dty, func)
+
+
+@model("std::time::Instant::checked_add")
+def _i_checked_add(it, args, dty, func):
+    a, d = _deref(args[0]).f[0], _deref(args[1]).f[0]
+    if isinstance(a, int) and isinstance(d, int):
+        return some(instant_ns(a + d)) if a + d <= IMAX else none()
+    r = bv(a, 128) + bv(d, 128)        # no 128-bit wrap: both < 2^95
+    if it.ctx.branch(z3.ULE(r, z3.BitVecVal(IMAX, 128))):
+        return some(instant_ns(simp(r)))
+    return none()
+
+
+@trait_model(r"^std::time::Instant$", "Add", "add")
+def _i_add(it, args, dty, func):
+    r = _i_checked_add(it, args, dty, func)
+    if r.idx == 0:
+        raise Panic("overflow", "overflow when adding duration to instant")
+    return r.f[0]
+
+
+@trait_model(r"^std::time::Instant$", "Sub", "sub")
+def _i_sub(it, args, dty, func):
+    b = _deref(args[1])
+    if _last(b.ty) == "Instant":
+        return _i_duration_since(it, args, dty, func)
+    a, d = _deref(args[0]).f[0], b.f[0]
+    if isinstance(a, int) and isinstance(d, int):
+        if d > a:
+            raise Panic("overflow", "overflow when subtracting duration from instant")
+        return instant_ns(a - d)
+    if not it.ctx.branch(z3.UGE(bv(a, 128), bv(d, 128))):
+        raise Panic("overflow", "overflow when subtracting duration from instant")
+    return instant_ns(simp(bv(a, 128) - bv(d, 128)))
+
+
+@trait_model(r"^std::time::Duration$", "Add", "add")
+def _d_add(it, args, dty, func):
+    a, d = _deref(args[0]).f[0], _deref(args[1]).f[0]
+    if isinstance(a, int) and isinstance(d, int):
+        if a + d > DMAX:
+            raise Panic("overflow", "overflow when adding durations")
+        return dur_ns(a + d)
+    r = bv(a, 128) + bv(d, 128)
+    if not it.ctx.branch(z3.ULE(r, z3.BitVecVal(DMAX, 128))):
+        raise Panic("overflow", "overflow when adding durations")
+    return dur_ns(simp(r))
+
+
+@model("std::time::Duration::saturating_mul")
+def _d_saturating_mul(it, args, dty, func):
+    a, m = _deref(args[0]).f[0], args[1]
+    if isinstance(a, int) and isinstance(m, int):
+        return dur_ns(min(a * m, DMAX))
+    if not isinstance(m, int):
+        raise Unsupported("Duration * symbolic multiplier")
+    # a < 2^94, m < 2^32: the 128-bit product cannot wrap
+    r = bv(a, 128) * z3.BitVecVal(m, 128)
+    return dur_ns(simp(z3.If(z3.ULE(r, z3.BitVecVal(DMAX, 128)), r, z3.BitVecVal(DMAX, 128))))
+
+
+@model("std::time::Duration::saturating_sub")
+def _d_saturating_sub(it, args, dty, func):
+    a, b = _deref(args[0]).f[0], _deref(args[1]).f[0]
+    if isinstance(a, int) and isinstance(b, int):
+        return dur_ns(max(a - b, 0))
+    A, B = bv(a, 128), bv(b, 128)
+    return dur_ns(simp(z3.If(z3.UGE(A, B), A - B, z3.BitVecVal(0, 128))))
+
+
+@model_re(r"^core::num::<impl u128>::min$")
+def _u128_min(it, args, dty, func):
+    a, b = args
+    if isinstance(a, int) and isinstance(b, int):
+        return min(a, b)
+    return simp(z3.If(z3.ULE(bv(a, 128), bv(b, 128)), bv(a, 128), bv(b, 128)))
+
+
+@trait_model(r".*", "BufMut", "put_bytes")
+def _put_bytes(it, args, dty, func):
+    n = args[2]
+    if not isinstance(n, int):
+        raise Unsupported("symbolic put_bytes count")
+    seq_of(args[0]).f.extend([args[1]] * n)
+    return UNIT
+
+
+@trait_model(r".*", "TryInto", "try_into")
+@trait_model(r".*", "TryFrom", "try_from")
+def _try_into(it, args, dty, func):
+    v = args[0]
+    d = dty
+    m = re.search(r"Result<\[(\w+); (\d+)\]", d) or re.search(r"Result<&\[(\w+); (\d+)\]", d)
+    if m and isinstance(v, (SliceRef, Ref)):
+        s = as_slice(v)
+        n = int(m.group(2))
+        if s.len != n:
+            return err(Opaque("TryFromSliceError"))
+        if "Result<&" in d:
+            return ok(Ref(Cell(Seq("array", list(s.items())), "arr"), ()))
+        return ok(Seq("array", list(s.items())))
+    m = re.search(r"Result<(\w+),", d)
+    if m and int_width(m.group(1)) and (isinstance(v, int) or is_sym(v)):
+        w = int_width(m.group(1))
+        if isinstance(v, int):
+            return ok(v) if v < (1 << w) else err(Opaque("TryFromIntError"))
+        if v.size() <= w:
+            return ok(z3.ZeroExt(w - v.size(), v) if v.size() < w else v)
+        if it.ctx.branch(z3.ULT(v, z3.BitVecVal(1 << w, v.size()))):
+            return ok(simp(z3.Extract(w - 1, 0, v)))
+        return err(Opaque("TryFromIntError"))
+    raise Unsupported(f"try_into {v!r} -> {dty}")
+
+
+# --- HashMap / HashSet as association lists ---------------------------------------------------------
+def map_of(v):
+    t = v.load() if isinstance(v, Ref) else v
+    if isinstance(t, MapV):
+        return t
+    raise Unsupported(f"expected map, got {t!r}")
+
+
+def key_eq(it, a, b):
+    """decide key equality (forks when symbolic)"""
+    r = val_eq(it, a, b)
+    return it.ctx.branch(r)
+
+
+def map_find_idx(it, m, key):
+    for i, (k, _) in enumerate(m.items):
+        if key_eq(it, k, key):
+            return i
+    return None
+
+
+class _MapValRef(Ref):
+    """reference to the value slot i of a MapV held in `cell/path`"""
+    __slots__ = ("mref", "i")
+
+    def __init__(self, mref, i):
+        self.cell, self.path, self.dyn_ty = mref.cell, mref.path, None
+        self.mref, self.i = mref, i
+
+    def load(self):
+        return self.mref.load().items[self.i][1]
+
+    def store(self, val):
+        m = self.mref.load()
+        m.items[self.i] = (m.items[self.i][0], val)
+
+    def child(self, j):
+        return _ChildOf(self, (j,))
+
+
+class _ChildOf(Ref):
+    __slots__ = ("parent", "sub")
+
+    def __init__(self, parent, sub):
+        self.cell, self.path, self.dyn_ty = parent.cell, parent.path, None
+        self.parent, self.sub = parent, sub
+
+    def load(self):
+        v = self.parent.load()
+        for i in self.sub:
+            v = v.f[i]
+        return v
+
+    def store(self, val):
+        v = self.parent.load()
+        for i in self.sub[:-1]:
+            v = v.f[i]
+        v.f[self.sub[-1]] = val
+
+    def child(self, j):
+        return _ChildOf(self.parent, self.sub + (j,))
+
+
+def map_find(it, m, key, mref=None):
+    i = map_find_idx(it, m, key)
+    if i is None:
+        return None
+    if mref is not None:
+        return _MapValRef(mref, i)
+    return Ref(Cell(m.items[i][1], "mapval"), ())
+
+
+@model("std::collections::HashMap::new", "std::collections::HashMap::with_capacity", "std::collections::BTreeMap::new",
+       "std::collections::HashSet::new", "std::collections::HashMap::default")
+def _map_new(it, args, dty, func):
+    return MapV("HashMap", [])
+
+
+@model("std::collections::HashMap::insert", "std::collections::BTreeMap::insert")
+def _map_insert(it, args, dty, func):
+    m = map_of(args[0])
+    i = map_find_idx(it, m, args[1])
+    if i is None:
+        m.items.append((args[1], args[2]))
+        return none()
+    old = m.items[i][1]
+    m.items[i] = (m.items[i][0], args[2])
+    return some(old)
+
+
+@model("std::collections::HashMap::get", "std::collections::HashMap::get_mut", "std::collections::BTreeMap::get")
+def _map_get(it, args, dty, func):
+    m = map_of(args[0])
+    key = args[1]
+    r = map_find(it, m, key, args[0] if isinstance(args[0], Ref) else None)
+    return some(r) if r is not None else none()
+
+
+@model("std::collections::HashMap::contains_key")
+def _map_contains(it, args, dty, func):
+    return map_find_idx(it, map_of(args[0]), args[1]) is not None
+
+
+@model("std::collections::HashMap::remove", "std::collections::BTreeMap::remove")
+def _map_remove(it, args, dty, func):
+    m = map_of(args[0])
+    i = map_find_idx(it, m, args[1])
+    if i is None:
+        return none()
+    return some(m.items.pop(i)[1])
+
+
+@model("std::collections::HashMap::len")
+def _map_len(it, args, dty, func):
+    return len(map_of(args[0]).items)
+
+
+@model("std::collections::HashMap::is_empty")
+def _map_is_empty(it, args, dty, func):
+    return len(map_of(args[0]).items) == 0
+
+
+@model("std::collections::HashMap::clear")
+def _map_clear(it, args, dty, func):
+    map_of(args[0]).items.clear()
+    return UNIT
+
+
+@model("std::collections::HashMap::iter", "std::collections::HashMap::iter_mut")
+def _map_iter(it, args, dty, func):
+    m = map_of(args[0])
+    mref = args[0]
+    items = [Agg("tuple", [Ref(Cell(k, "key"), ()), _MapValRef(mref, i)]) for i, (k, _) in enumerate(m.items)]
+    return Agg("{owned_iter}", [Seq("vec", items, "?"), 0])
+
+
+@model("std::collections::HashMap::values", "std::collections::HashMap::values_mut")
+def _map_values(it, args, dty, func):
+    m = map_of(args[0])
+    items = [_MapValRef(args[0], i) for i in range(len(m.items))]
+    return Agg("{owned_iter}", [Seq("vec", items, "?"), 0])
+
+
+@model("std::collections::HashMap::keys")
+def _map_keys(it, args, dty, func):
+    m = map_of(args[0])
+    items = [Ref(Cell(k, "key"), ()) for k, _ in m.items]
+    return Agg("{owned_iter}", [Seq("vec", items, "?"), 0])
+
+
+# --- OnceLock / interior mutability (sequential cells) ------------------------------------------------
+@model("std::sync::OnceLock::new", "std::cell::OnceCell::new")
+def _oncelock_new(it, args, dty, func):
+    return Agg("std::sync::OnceLock", [none()])
+
+
+@model("std::sync::OnceLock::get")
+def _oncelock_get(it, args, dty, func):
+    r = args[0]
+    o = r.load().f[0]
+    return some(r.child(0).child(0)) if o.idx == 1 else none()
+
+
+@trait_model(r".*", "Buf", "copy_to_bytes")
+def _copy_to_bytes(it, args, dty, func):
+    g, adv = _cursor_parts(args[0])
+    n = simp(args[1])
+    items = g()
+    if not isinstance(n, int):
+        ch = it.ctx.switch(n, list(range(len(items) + 1)))
+        n = len(items) + 1 if ch == "otherwise" else ch
+    if n > len(items):
+        raise Panic("bounds", "`len` greater than remaining")
+    out = Seq("bytes", list(items[:n]))
+    adv(n)
+    return out
